@@ -10,6 +10,8 @@ replace (
 
 require (
 	free5gclib v0.0.0-00010101000000-000000000000
+	github.com/ishidawataru/sctp v0.0.0-20210707070123-9a39160e9062
+	github.com/sirupsen/logrus v1.9.0
 	golang.org/x/sys v0.14.1-0.20231108175955-e4099bfacb8c
 	stgutg v0.0.0-00010101000000-000000000000
 	tglib v0.0.0-00010101000000-000000000000
@@ -20,7 +22,6 @@ require (
 	github.com/antonfisher/nested-logrus-formatter v1.3.1 // indirect
 	github.com/calee0219/fatal v0.0.1 // indirect
 	github.com/dgrijalva/jwt-go v3.2.0+incompatible // indirect
-	github.com/ishidawataru/sctp v0.0.0-20210707070123-9a39160e9062 // indirect
-	github.com/sirupsen/logrus v1.9.0 // indirect
 	github.com/wmnsk/milenage v1.2.1 // indirect
+	gopkg.in/yaml.v2 v2.4.0 // indirect
 )
